@@ -1,13 +1,47 @@
 (* C03 — every valid external encoding of a value decodes to exactly that value.
-   Stage reached: the canonical forms (C01), the trailing-data rule, and each alternative / legacy form of a single
-   node are proved for all field values; arbitrary mixtures of alternative forms inside containers are covered by the
-   correspondence run, whose encodings come from a spec-side encoder (see DESIGN.md). *)
+   The format is stated as a relation between values and byte strings (Codec/Spec.v: every minimal, non-minimal, modern
+   and legacy form, nested arbitrarily); C03_every_form_same_value is the decoder's soundness for it, for all values.
+   Outside the relation (own theorems or correspondence only): maps (recorded findings), compressed terms, the textual
+   float, NEW_FUN_EXT, LOCAL_EXT and ATOM_CACHE_REF. *)
 From EDP Require Import Base.Bytes Term.Term Term.Value Gen.Tags Gen.Limits Gen.DecoderArms.
-From EDP Require Import Codec.Encode Codec.Decode Codec.DecodeFacts Codec.Norm Codec.RoundTrip Codec.RoundTrip2.
+From EDP Require Import Codec.Encode Codec.Decode Codec.DecodeFacts Codec.Norm Codec.RoundTrip Codec.RoundTrip2 Codec.Spec Codec.SpecFacts.
 
 Section C03.
   Variable cfg : dcfg.
   Hypothesis Harms : d_arms cfg = owned_arms.
+
+  (* every valid encoding of a value — whichever legal forms are mixed inside it — is consumed exactly and decodes to a
+     term denoting that value *)
+  Theorem C03_every_form_same_value : forall v b, encodes v b ->
+    (1 <= length b)%nat /\
+    forall f rest, (length b < f)%nat ->
+      exists t, parse cfg f (b ++ rest) = POk t rest /\ denote t = v /\ (forall a, v = VAtom a -> t = TAtom a).
+  Proof. exact (proj1 (spec_sound cfg Harms)). Qed.
+
+  Theorem C03_decode_every_form : forall v b, encodes v b -> exists t, decode cfg (tag_version :: b) = DOk t /\ denote t = v.
+  Proof. exact (decode_sound cfg Harms). Qed.
+
+  Theorem C03_trailing_after_every_form : forall v b x r, encodes v b ->
+    decode cfg (tag_version :: b ++ x :: r) = DTrailing (len (x :: r)).
+  Proof. intros v b x r H. exact (decode_trailing cfg Harms v b x r H). Qed.
+
+  (* the relation is inhabited by mixtures: {[1 | <<>>], 'é' (Latin-1 form), 2^40 as a 9-digit big integer} in a
+     LARGE_TUPLE_EXT *)
+  Example C03_example_mixture :
+    encodes (VTuple [VCons (VInt 1) (VBits [] 0); VAtom [195; 169]; VInt 1099511627776])
+            ([105; 0; 0; 0; 3] ++ ([108; 0; 0; 0; 1] ++ [98; 0; 0; 0; 1] ++ [109; 0; 0; 0; 0]) ++ [115; 1; 233] ++ [110; 9; 0; 0; 0; 0; 0; 0; 1; 0; 0; 0]).
+  Proof.
+    apply (E_large_tuple [VCons (VInt 1) (VBits [] 0); VAtom [195; 169]; VInt 1099511627776]
+             (([108; 0; 0; 0; 1] ++ [98; 0; 0; 0; 1] ++ [109; 0; 0; 0; 0]) ++ [115; 1; 233] ++ [110; 9; 0; 0; 0; 0; 0; 0; 1; 0; 0; 0] ++ [])); [|vm_compute; discriminate].
+    apply ES_cons.
+    - apply (E_list [VInt 1] [98; 0; 0; 0; 1] (VBits [] 0) [109; 0; 0; 0; 0]).
+      + change [98; 0; 0; 0; 1] with ([98; 0; 0; 0; 1] ++ []). apply ES_cons; [exact (E_integer 1 ltac:(reflexivity))|apply ES_nil].
+      + exact (E_binary [] ltac:(vm_compute; discriminate)).
+      + vm_compute; discriminate.
+      + left; discriminate.
+    - apply ES_cons; [exact (E_small_atom_latin1 [233] ltac:(reflexivity))|].
+      apply ES_cons; [exact (E_small_big [0; 0; 0; 0; 0; 1; 0; 0; 0] 0 ltac:(reflexivity) ltac:(reflexivity))|apply ES_nil].
+  Qed.
 
   (* bytes remaining after one complete term are reported, never ignored *)
   Theorem C03_trailing_reported : forall t, wf t = true -> rt_ok (d_kcmp cfg) (d_kinsert cfg) t ->
